@@ -312,9 +312,14 @@ def run_check(spec, tier="quick", replay=None):
         violations.append({"kind": kind, "msg": msg, "payload": payload, "signature": signature})
 
     disagreements = 0
+    # shrinking is the expensive part once something is wrong everywhere: a handful of shrunk witnesses over all suites is enough
+    budget = {"crash": int(os.environ.get("VERIF_MAX_CRASH_REPORTS", "4")), "oracle": int(os.environ.get("VERIF_MAX_ORACLE_REPORTS", "8"))}
     for suite, r in suite_results:
         exe = r["exe"]
         for it in r["crashes"][:3]:
+            if budget["crash"] <= 0:
+                break
+            budget["crash"] -= 1
             c = _shrink(suite, exe, it, "crash")
             add_violation("crash", "implementation crashed / sanitizer report (rc=%s)%s" % (
                               it["rc"], ("; oracle on the trace so far: " + "; ".join(it.get("oracle_partial") or [])) if it.get("oracle_partial") else ""),
@@ -327,6 +332,9 @@ def run_check(spec, tier="quick", replay=None):
             if k in seen_msgs:
                 continue
             seen_msgs.add(k)
+            if budget["oracle"] <= 0:
+                break
+            budget["oracle"] -= 1
             c = _shrink(suite, exe, it, "oracle")
             add_violation("oracle", it["msg"], {"suite": suite.name, "case": c["lines"], "impl_output": it["impl"],
                                                 "oracle": it["msg"]}, suite.signature(c, it["msg"]))
